@@ -153,6 +153,7 @@ pub fn run(input: &Value) -> Value {
       }
       "try_load" => crate::tryload::run_op(op),
       "visit_lock" => crate::tryload::run_lock_op(op),
+      "manifest_lock" => crate::tryload::run_manifest_lock_op(op),
       "parse_source_and_info" => {
         // parse_module_source_and_info through the cfg(deno_graph_verif) hook. The media type is realised by the file extension,
         // the header charset by `content-type: text/plain; charset=utf-16le`; the content is UTF-16LE "1" without a BOM, which
